@@ -545,6 +545,20 @@ impl<'a> Sc<'a> {
                     }
                 }
             }
+            // other entry points on the same bytes in between, on the same thread (a viewer that
+            // indexes, searches and parses the same buffer): results are not judged here, but the
+            // call that follows must not be influenced by them, and none of them may panic (C03.a)
+            if (self.pos + self.buf.len()) % 8 == 3 {
+                st.inc("interleaved_other_entry_points");
+                if let Err(p) = guarded(|| {
+                    let _ = dlt_consume_msg(input);
+                    let _ = dlt_message(input, self.filter, !self.storage);
+                    let _ = skip_storage_header(input);
+                    let _ = forward_to_next_storage_header(input);
+                }) {
+                    v.push(Violation::new("C03.a", &format!("panic@{}", panic_site(&p)), format!("an entry point called in between panicked at buffer offset {}: {}", self.pos, p)));
+                }
+            }
             st.inc("parse_calls");
             let res = guarded(|| dlt_message(input, self.filter, self.storage));
             let res = match res {
